@@ -441,36 +441,37 @@ func oracleC18(op string, a []string) string {
 		if r == "panic" || r == "hang" || r == "bad-op" {
 			return "FAIL " + r
 		}
-		// the decoded structure is a value of its own: overwriting the input afterwards must not change it
-		if b, ok := unhex(a[1]); ok && strings.HasPrefix(r, "ok") && len(b) > 0 {
-			in := append([]byte{}, b...)
-			var show func() string
-			switch a[0] {
-			case "dec":
-				u := upc.NewUePolDeliverySer()
-				if u.UePolDeliverySerDecode(in) != nil {
-					return "pass"
-				}
-				show = func() string { return showMsg(u) }
-			case "unl":
-				var c upc.UEPolicySectionManagementListContent
-				if c.UnmarshalBinary(in) != nil {
-					return "pass"
-				}
-				show = func() string { return showSubLists(c) }
-			case "unr":
-				var c upc.UEPolicySectionManagementResultContent
-				if c.UnmarshalBinary(in) != nil {
-					return "pass"
-				}
-				show = func() string { return showSubResults(c) }
+		// a decoded list edited through the accessors (a policy part grown with GetPartContent / append / SetPartContent /
+		// SetLen_byContent) encodes like the same list edited on memory of its own: parts of a decoded list must not share storage
+		if b, ok := unhex(a[1]); ok && a[0] == "unl" && strings.HasPrefix(r, "ok") {
+			var c, ref upc.UEPolicySectionManagementListContent
+			if c.UnmarshalBinary(append([]byte{}, b...)) != nil || ref.UnmarshalBinary(append([]byte{}, b...)) != nil {
+				return "pass"
 			}
-			before := show()
-			for i := range in {
-				in[i] ^= 0xff
+			extra := []byte{0xe1, 0xe2, 0xe3, 0xe4, 0xe5}
+			edited := false
+			for i := range c {
+				for j := range c[i].UEPolicySectionManagementSubListContents {
+					parts := c[i].UEPolicySectionManagementSubListContents[j].UEPolicySectionContents
+					rparts := ref[i].UEPolicySectionManagementSubListContents[j].UEPolicySectionContents
+					if len(parts) < 2 || len(parts[0].GetPartContent())+len(extra) > 60000 {
+						continue
+					}
+					p := &parts[0]
+					p.SetPartContent(append(p.GetPartContent(), extra...))
+					p.SetLen_byContent()
+					rp := &rparts[0]
+					rp.SetPartContent(append(append([]byte{}, rp.GetPartContent()...), extra...))
+					rp.SetLen_byContent()
+					edited = true
+				}
 			}
-			if show() != before {
-				return "FAIL decoded structure aliases the input (changed after the input was overwritten)"
+			if edited {
+				b1, e1 := c.MarshalBinary()
+				b2, e2 := ref.MarshalBinary()
+				if (e1 == nil) != (e2 == nil) || !bytes.Equal(b1, b2) {
+					return "FAIL a decoded list edited through the accessors encodes differently from the same list on its own memory (parts share storage): " + hexs(b1)
+				}
 			}
 		}
 		return "pass"
